@@ -30,10 +30,17 @@ fn fmt_error(e: &Error) {
     let _ = write!(s, "{}", e.display_debug_info());
 }
 
+#[derive(Debug)]
+struct HostObj;
+impl minijinja::value::Object for HostObj {}
+
 fn std_ctx() -> Value {
     context! {
         x => 1, xs => vec![1, 2, 3], m => Value::from_pairs([("a", 1), ("b", 2)]), s => "str", f => 1.5, n => Value::from(()),
         b => true, e => Vec::<i32>::new(), tree => Vec::<Value>::new(),
+        // values only the embedding program can supply: a streaming iterable without a length, a
+        // one-shot iterator, a byte string, a plain object
+        hu => Value::make_iterable(|| (0..3).filter(|_| true)), ho => Value::make_one_shot_iterator((0..3).filter(|_| true)), hb => Value::from_bytes(vec![104, 105, 255]), hobj => Value::from_object(HostObj),
     }
 }
 
@@ -92,6 +99,10 @@ const FMT_FLAGS: &[&str] = &["", "-", "0", "+", " ", "#", "-0+ #"];
 const FMT_NUMS: &[&str] = &["", "0", "1", "12", "1023", "65534", "65535", "65536", "99999999999", "18446744073709551616"];
 const FMT_TYPES: &[&str] = &["d", "i", "s", "r", "f", "F", "e", "E", "g", "G", "x", "X", "o", "c", "%", "b", "n", ""];
 const FMT_VALUES: &[&str] = &["1", "-1.5", "1e300", "'a'", "170141183460469231731687303715884105727", "none", "[1]"];
+
+/// format strings as such: every string of pieces out of the two formatting mini-languages plus
+/// multi-byte characters in every position (keys, fill characters, conversions, stray text)
+const FMT_PIECES: &[&str] = &["%", "(", ")", "s", "d", "c", "5", ".", "*", "é", "€", "😀", "{", "}", ":", "!", "<", "0", "a", "-", "#", "r", "[", "x"];
 
 fn fmt_total() -> u64 {
     (FMT_FLAGS.len() * FMT_NUMS.len() * FMT_NUMS.len() * FMT_TYPES.len() * FMT_VALUES.len()) as u64
@@ -351,7 +362,7 @@ fn callables() -> Callables {
 }
 
 const ARGS: &[&str] = &["0", "1", "-1", "2147483648", "9223372036854775807", "9223372036854775808", "18446744073709551615", "(-9223372036854775807 - 1)", "1e308", "''", "'a'", "[]", "{}", "undef"];
-const RECEIVERS: &[&str] = &["'abc'", "5", "[1, 2, 3]", "{'a': 1}", "none", "1.5", "true", "''"];
+const RECEIVERS: &[&str] = &["'abc'", "5", "[1, 2, 3]", "{'a': 1}", "none", "1.5", "true", "''", "hu", "ho", "hb", "hobj"];
 
 fn builtin_total(c: &Callables, max_arity: u32) -> u64 {
     let per = ranked_total(max_arity, ARGS.len() as u64);
@@ -605,6 +616,14 @@ fn run_case(family: &str, n: u64, cc: &mut ChildCtx) {
             exercise_template(env, &a, &ctx, cc);
             exercise_template(env, &b, &ctx, cc);
         }
+        "format_strings" => {
+            let fs = ranked_string(n, FMT_PIECES);
+            let c2 = context! { fs => fs, mp => Value::from_pairs([("é", Value::from(1)), ("a", Value::from("€")), ("", Value::from(2.5)), ("😀", Value::from(vec![1]))]) };
+            exercise_template(env, "{{ fs|format(1, 'x€', 2.5) }}", &c2, cc);
+            exercise_template(env, "{{ fs|format(mp) }}", &c2, cc);
+            exercise_template(env, "{{ fs.format(1, 'x€', a=2, é=3) }}", &c2, cc);
+            exercise_template(env, "{{ fs|format('é') }}{{ fs.format('€', 0) }}", &c2, cc);
+        }
         "escapes" => {
             let body = ranked_string(n, ESCAPES);
             for q in ['\'', '"'] {
@@ -643,6 +662,7 @@ fn describe(family: &str, n: u64) -> String {
             let (a, b) = fmt_case(n);
             format!("{} / {}", a, b)
         }
+        "format_strings" => format!("format string {:?} through |format (positional, mapping) and str.format", ranked_string(n, FMT_PIECES)),
         "compose" => format!("{:?}", compose_case(n)),
         "counts" => format!("{} x{} :: {}", COUNT_KINDS[(n as usize) / COUNT_NS.len()], COUNT_NS[(n as usize) % COUNT_NS.len()], count_case(n).chars().take(300).collect::<String>()),
         "big_lazy" => format!("{{{{ {}|{} }}}}", BIG_LAZY_RECEIVERS[(n as usize) / BIG_LAZY_FILTERS.len()], BIG_LAZY_FILTERS[(n as usize) % BIG_LAZY_FILTERS.len()]),
@@ -764,6 +784,9 @@ pub fn main(args: Args) -> i32 {
     shards.extend(crash::shards_for("counts", ncounts, 20, "2m", "debug"));
     let nfmt = fmt_total();
     shards.extend(crash::shards_for("format_specs", nfmt, 2_000, "2m", "release"));
+    let nfmts = ranked_total(if quick { 4 } else { 5 }, FMT_PIECES.len() as u64);
+    shards.extend(crash::shards_for("format_strings", nfmts, 20_000, "2m", "release"));
+    acc.count("cases_format_strings", nfmts);
     let nacc = (ACC_STEPS.len() * ACC_COUNTS.len()) as u64;
     shards.extend(crash::shards_for("accumulate", nacc, 1, "2m", "debug"));
     shards.extend(crash::shards_for("accumulate", nacc, 1, "2m", "release"));
